@@ -337,23 +337,74 @@ def received_pdus_can_be_serialised_again(chk, repo: Repo) -> None:
     writer over a symbolic APDU).  A writer guard that the reader does not mirror (a count octet taken unchecked) makes
     a delivered frame unserialisable - eg. when relaying or logging it."""
     ev = SerEval(repo)
+    masks = dispatch_masks(repo)
     n = 0
     for c in service_classes(repo):
         if is_stub(repo, c):
             continue
         fk, tk = c.methods["from_knx"], c.methods["to_knx"]
+        mask, codes = masks.get(c.name, (0x3FF, set()))
+        # a service with data in the low six bits of its code whose block also holds dedicated codes of other services:
+        # only the codes the dispatcher routes to it are "received PDUs" of this service - one run per such code
+        heads: list[tuple[int, int] | None] = [None]
+        if mask == 0x3C0 and 0 < len(codes) < 64:
+            heads = [(k >> 8, k & 0xFF) for k in sorted(codes)]
 
-        def fn(run_, c=c, fk=fk, tk=tk):
+        def fn(run_, c=c, fk=fk, tk=tk, head=None):
             run_.cons.iv["L"] = [2, 255]
-            raw = Bytes((Blob("in", Lin(0), Lin(0, {"L": 1})),))
+            if head is None:
+                raw = Bytes((Blob("in", Lin(0), Lin(0, {"L": 1})),))
+            else:
+                raw = Bytes((BV.const(head[0]), BV.const(head[1]), Blob("in", Lin(2), Lin(-2, {"L": 1}))))
             o = ev.call_function(fk, [raw], {}, run_, ctx=c)
             run_.notes.append("#decoded")
             return o, ev.call_function(tk, [], {}, run_, self_val=o, ctx=c)
+        paths = []
         try:
-            paths = ev.paths(fn)
+            for h in heads:
+                paths += ev.paths(lambda run_, h=h: fn(run_, head=h))
         except Unsupported as u:
             raise AnalysisError(f"{c.name}: codec outside the analysed fragment: {u}") from u
         n += 1
         refused = sorted({str(val)[:90] for outcome, val, r in paths if outcome != "return" and "#decoded" in r.notes})
         chk.ob("received-pdu-can-be-serialised-again", tk.site(), not refused, f"{c.name}: " + ("to_knx accepts every object from_knx returns" if not refused else f"from_knx accepts PDUs whose object to_knx refuses ({'; '.join(refused)})"), key=f"reserialise|{c.name}")
     chk.floor("services checked for re-serialisation of received PDUs", n, 70)
+
+
+def payload_bits_never_form_another_service_code(chk, repo: Repo) -> None:
+    """A service that carries data in the low six bits of its 10-bit code shares its block with the dedicated codes of
+    other services (the dispatcher routes those first).  A field value that would produce such a code is not
+    representable: the encoder has to refuse it, else the PDU it emits is another service's (the field wraps into the
+    service code).  Decided by decoding each such foreign code with the class's own reader - which yields the object whose
+    encoding would be that code - and requiring that to_knx refuses it on every path."""
+    ev = SerEval(repo)
+    masks = dispatch_masks(repo)
+    n = 0
+    for c in service_classes(repo):
+        if is_stub(repo, c) or c.name not in masks:
+            continue
+        mask, codes = masks[c.name]
+        if mask != 0x3C0 or not codes:
+            continue
+        block = next(iter(codes)) & 0x3C0
+        foreign = sorted({block | low for low in range(64)} - codes)
+        if not foreign:
+            continue
+        fk, tk = c.methods["from_knx"], c.methods["to_knx"]
+        leaks = []
+        for k in foreign:
+            def fn(run_, k=k):
+                run_.cons.iv["L"] = [2, 255]
+                raw = Bytes((BV.const(k >> 8), BV.const(k & 0xFF), Blob("in", Lin(2), Lin(-2, {"L": 1}))))
+                o = ev.call_function(fk, [raw], {}, run_, ctx=c)
+                run_.notes.append("#decoded")
+                return ev.call_function(tk, [], {}, run_, self_val=o, ctx=c)
+            try:
+                paths = ev.paths(fn)
+            except Unsupported as u:
+                raise AnalysisError(f"{c.name}: codec outside the analysed fragment: {u}") from u
+            if any(outcome == "return" for outcome, val, r in paths):
+                leaks.append(k)
+        n += 1
+        chk.ob("payload-bits-never-form-another-service-code", tk.site(), not leaks, f"{c.name}: the block {block:#05x}..{block | 63:#05x} holds {len(foreign)} codes of other services; " + ("to_knx refuses every field value that would produce one" if not leaks else "to_knx emits " + ", ".join(f"{k:#05x}" for k in leaks[:6]) + (" ..." if len(leaks) > 6 else "") + " for a field value in range - a PDU the dispatcher decodes as another service"), key=f"collide|{c.name}")
+    chk.count("services sharing their code block with dedicated codes", n)
